@@ -383,7 +383,7 @@ func Copy(c *Ctx) error {
 					for hi, sh := range shapes {
 						for _, rep := range []bool{false, true} {
 							n++
-							if !c.Thorough() && (si*7+di*3+hi+n)%29 != 0 {
+							if !c.Thorough() && (si*7+di*3+hi+n)%9 != 0 {
 								continue
 							}
 							cc := def
@@ -448,7 +448,7 @@ func Copy(c *Ctx) error {
 			c.Stats.Exhaustive = true
 			c.Stats.Rule = "one case = one copy.Copy call with a symlink to an outside sentinel (absolute, ..-laden, dangling, into a missing outside path, looping) placed in the source tree, the destination tree, the source argument or the destination argument, x follow-links x always-replace; every case is non-trivial; distinct by the full input"
 		case "filter":
-			n := 400
+			n := 1200
 			if c.Thorough() {
 				n = 8000
 			}
@@ -521,7 +521,7 @@ func Copy(c *Ctx) error {
 			}
 			c.Stats.Rule = "one case = one copy.Copy of a whole tree with include/exclude lists; non-trivial = some entry is copied and some is not; distinct by (tree, patterns)"
 		default: // fidelity (C13)
-			n := 260
+			n := 700
 			if c.Thorough() {
 				n = 5000
 			}
